@@ -255,3 +255,133 @@ fn c20_o3_final_memo_accepted() {
     std::mem::forget(local);
     std::mem::forget(zalsa);
 }
+
+// ---------------------------------------------------------------------------------------------
+// C01-O5 / C03-O4 / C04-O3: full memo verification (shallow + deep) over real input-field ingredients
+// ---------------------------------------------------------------------------------------------
+
+use crate::function::sync::verif::GuardHome;
+use crate::input::verif::{alloc_vin, vin_ingredients};
+use crate::zalsa::verif::zalsa_with;
+use crate::zalsa_local::{OriginAndExtra, QueryEdge};
+
+/// A memo of query (3, 0) that read `n` fields of one page-backed input; everything symbolic:
+/// runtime state, field revisions/durabilities, the memo's verified_at/durability.
+/// Assumed (and justified elsewhere): (a) the memo's durability is <= the durability of every field it
+/// read (C01-O1 / C02-O5: durability = min over reads); (b) a field written in revision r with durability d
+/// has last_changed(d) >= r (C02-O2: the setter reports the field's durability to the runtime).
+fn verify_memo_over_fields(n: usize) {
+    let (zalsa, revs) = zalsa_with(vin_ingredients());
+    let now = revs[0];
+    let r: [usize; 2] = [kani::any(), kani::any()];
+    let d: [Durability; 2] = [any_durability(), any_durability()];
+    kani::assume(1 <= r[0] && r[0] <= now && 1 <= r[1] && r[1] <= now);
+    let id = alloc_vin(&zalsa, [Revision::from(r[0]), Revision::from(r[1])], d);
+    let v: usize = kani::any();
+    kani::assume(1 <= v && v <= now);
+    let md = any_durability();
+    let mut i = 0;
+    while i < n {
+        kani::assume(dur_index(md) <= dur_index(d[i])); // (a)
+        kani::assume(last_changed_ref(d[i], revs) >= r[i]); // (b)
+        i += 1;
+    }
+    let edges = [
+        QueryEdge::input(crate::DatabaseKeyIndex::new(crate::zalsa::IngredientIndex::new(1), id)),
+        QueryEdge::input(crate::DatabaseKeyIndex::new(crate::zalsa::IngredientIndex::new(2), id)),
+    ];
+    let origin = if n == 1 {
+        OriginAndExtra::derived([edges[0]].into_iter(), Default::default())
+    } else {
+        OriginAndExtra::derived(edges.into_iter(), Default::default())
+    };
+    let header = header_of(v, revisions_of(1, md, origin, true));
+    let local = ZalsaLocal::new();
+    let home = GuardHome::new(crate::zalsa::IngredientIndex::new(3));
+    // SAFETY: index < Id::MAX_U32.
+    let guard = home.guard(&zalsa, &local, unsafe { Id::from_index(0) });
+    let ok = header.verify_memo(dangling_raw_db(), &guard, CycleRecoveryStrategy::Panic);
+    let mut unchanged_since_v = true;
+    let mut i = 0;
+    while i < n {
+        unchanged_since_v &= r[i] <= v;
+        i += 1;
+    }
+    if ok {
+        assert!(unchanged_since_v, "C01/C02: a memo was validated although an input field it read was written after it was last verified");
+        assert!(header.verified_at.load().as_usize() == now, "C03: a validated memo was not marked verified in this revision");
+    } else {
+        assert!(!unchanged_since_v, "C03: a memo was invalidated although none of the fields it read was written since it was verified");
+        assert!(header.verified_at.load().as_usize() == v, "C01: verified_at modified although verification failed");
+    }
+    kani::cover!(ok && v < now);
+    kani::cover!(!ok);
+    kani::cover!(ok && v < now && dur_index(md) == 0);
+    std::mem::forget(guard);
+    std::mem::forget(home);
+    std::mem::forget(local);
+    std::mem::forget(header);
+    std::mem::forget(zalsa);
+}
+
+// @verif prop=C01,C03,C02 obl=O5 tier=thorough bounds="memo that read 1 field of one page-backed 2-field input; symbolic runtime INV state (< 2^40), field revisions <= now, field durabilities, memo verified_at <= now and durability; assumptions (a) memo durability <= field durability and (b) last_changed(d_field) >= field revision"
+// @+ encodes="MemoHeader::verify_memo, MemoHeader::shallow_verify_memo, MemoHeader::validate_may_be_provisional, MemoHeader::update_shallow, MemoHeader::deep_verify_memo, deep_verify_edges, DatabaseKeyIndex::maybe_changed_after, Zalsa::lookup_ingredient, input_field::FieldIngredientImpl::<VIn>::maybe_changed_after (via dyn Ingredient), MemoHeader::mark_as_verified, QueryEdges::iter, ClaimGuard accessors"
+/// C01-O5/C03-O4: complete verification (durability shortcut, then dependency walk through the real dyn-dispatched
+/// field ingredients) of a memo that read one input field answers 'valid' iff that field was not written after the memo
+/// was last verified; a validated memo is stamped verified-now, a rejected one is left alone.
+#[kani::proof]
+#[kani::unwind(5)]
+#[kani::stub(real_catch_unwind, stub_catch_unwind)]
+fn c01_o5_verify_memo_one_field() {
+    verify_memo_over_fields(1);
+}
+
+// @verif prop=C01,C03,C02 obl=O5 tier=thorough bounds="as c01_o5_verify_memo_one_field with both fields read (two edges, in order)"
+// @+ encodes="MemoHeader::verify_memo, MemoHeader::deep_verify_memo, deep_verify_edges, FieldIngredientImpl::<VIn>::maybe_changed_after"
+/// C01-O5/C03-O4 for a memo that read two fields.
+#[kani::proof]
+#[kani::unwind(6)]
+#[kani::stub(real_catch_unwind, stub_catch_unwind)]
+fn c01_o5_verify_memo_two_fields() {
+    verify_memo_over_fields(2);
+}
+
+// @verif prop=C01,C04,C03 obl=O5 tier=quick bounds="memo without edges; origin Derived / DerivedUntracked / Assigned; final or provisional; cycle-participant flag via strategy Panic/Fixpoint; memo not shallow-verifiable (durability LOW, verified before now)"
+// @+ encodes="MemoHeader::deep_verify_memo, MemoHeader::verify_memo, MemoHeader::may_be_provisional, MemoHeader::was_cycle_participant, deep_verify_edges (zero edges), MemoHeader::mark_as_verified"
+/// C01-O5/C04-O3: dependency-walk verification answers Changed for a memo that read untracked state, for a specified
+/// (assigned) value and for a provisional memo; a final, fully tracked memo without dependencies is Unchanged and is
+/// stamped verified-now.
+#[kani::proof]
+#[kani::unwind(5)]
+#[kani::stub(real_catch_unwind, stub_catch_unwind)]
+fn c01_o5_deep_verify_arms() {
+    let (zalsa, revs) = any_zalsa();
+    let now = revs[0];
+    kani::assume(now > 1);
+    let v: usize = kani::any();
+    kani::assume(1 <= v && v < now);
+    let shape = any_origin_shape();
+    let is_final: bool = kani::any();
+    let header = header_of(v, revisions_of(1, Durability::LOW, origin_of(shape), is_final));
+    let local = ZalsaLocal::new();
+    let home = GuardHome::new(crate::zalsa::IngredientIndex::new(3));
+    // SAFETY: index < Id::MAX_U32.
+    let guard = home.guard(&zalsa, &local, unsafe { Id::from_index(0) });
+    let strategy = if kani::any() { CycleRecoveryStrategy::Panic } else { CycleRecoveryStrategy::Fixpoint };
+    let res = header.deep_verify_memo(dangling_raw_db(), &guard, strategy);
+    let expect_unchanged = shape == OriginShape::Derived && is_final;
+    assert!(res.is_unchanged() == expect_unchanged, "C04/C01: deep verification arm returned the wrong verdict (untracked, assigned and provisional memos must be Changed)");
+    if expect_unchanged {
+        assert!(header.verified_at.load().as_usize() == now);
+    } else {
+        assert!(header.verified_at.load().as_usize() == v, "C01: a rejected memo was marked verified");
+    }
+    kani::cover!(shape == OriginShape::Untracked && is_final);
+    kani::cover!(shape == OriginShape::Assigned);
+    kani::cover!(expect_unchanged);
+    std::mem::forget(guard);
+    std::mem::forget(home);
+    std::mem::forget(local);
+    std::mem::forget(header);
+    std::mem::forget(zalsa);
+}
